@@ -887,7 +887,13 @@ class Fxp():
             val_dtype = object if self.n_word >= _n_word_max_ else (np.int64 if self.signed else np.uint64)
 
             # rounding and overflowing
-            new_val = self._round(val * conv_factor , method=self.config.rounding)
+            scaled_val = val * conv_factor
+            if self.n_frac < 0 and not raw and scaled_val.dtype != object and np.issubdtype(scaled_val.dtype, np.floating):
+                # a non-zero value must not vanish when the product underflows: ceil and floor need its sign
+                _vanished = (scaled_val == 0) & (val != 0)
+                if np.any(_vanished):
+                    scaled_val = np.where(_vanished, np.copysign(5e-324, val), scaled_val)
+            new_val = self._round(scaled_val, method=self.config.rounding)
             new_val = self._overflow_action(new_val, val_min, val_max)
 
             # convert to array of val_dtype
